@@ -324,7 +324,7 @@ pub fn run(tier: Tier) -> CheckResult {
     // ---- topological_sort_types ----
     // (n, edge-count cap, deviation bound) slices, smallest first
     let slices: Vec<(usize, Option<u32>, Option<usize>)> = match tier {
-        Tier::Quick => vec![(1, None, None), (2, None, None), (3, None, None), (4, Some(4), Some(1))],
+        Tier::Quick => vec![(1, None, None), (2, None, None), (3, None, None), (4, Some(7), Some(1))],
         Tier::Thorough => vec![
             (1, None, None),
             (2, None, None),
@@ -431,13 +431,13 @@ pub fn run(tier: Tier) -> CheckResult {
         resolver_slices.push(json!({"routine":"resolve_build_order","nodes":"1..3","edge_multiplicity":"0..2","graphs":cases.len()}));
         let n4_before = cases.len();
         for mask in 0..(1u64 << 16) {
-            if tier == Tier::Quick && mask.count_ones() > 4 {
+            if tier == Tier::Quick && mask.count_ones() > 8 {
                 continue;
             }
             let m: Vec<u8> = (0..16).map(|i| (mask >> i & 1) as u8).collect();
             cases.push((4, m));
         }
-        resolver_slices.push(json!({"routine":"resolve_build_order","nodes":4,"edge_multiplicity":"0..1","max_edges": if tier==Tier::Quick {json!(4)} else {json!(16)},"graphs":cases.len()-n4_before}));
+        resolver_slices.push(json!({"routine":"resolve_build_order","nodes":4,"edge_multiplicity":"0..1","max_edges": if tier==Tier::Quick {json!(8)} else {json!(16)},"graphs":cases.len()-n4_before}));
         if tier == Tier::Thorough {
             // one duplicated edge on every 4-node graph with <= 6 edges
             let before = cases.len();
